@@ -82,6 +82,7 @@ def showIter (es : List IterEntry) (e : IterEnd) : String :=
   let one (x : IterEntry) : String :=
     s!"name={toHexTok x.name} mode={octStr x.mode} flags={if x.hardLink then 2 else 0} uid={x.uid} gid={x.gid} mtime={x.mtime} size={x.size}" ++
     (if fmt x.mode = S_IFLNK then " link=" ++ optHex x.link else "") ++
+    s!" maj={x.devMajor} min={x.devMinor} xattr={showXattr x.xattr}" ++
     (match x.data with
      | none => ""
      | some r => match r.ending with
@@ -167,6 +168,9 @@ def step (line : String) : String :=
         | some (t, devs) => if storable t then "ok " ++ ";".intercalate (t.map (describeNode devs)) else "fail"
     | _, _, _, _, _, _ => "bad-op"
   | ["iter", h] => withHex h fun s => let (es, e) := iterate s; showIter es e
+  | ["iterw", w, h] => match w.toNat? with                          -- the caller reads in requests of `w` bytes
+    | some w => if w < 1 ∨ w > 65536 then "bad-op" else withHex h fun s => let (es, e) := iterateWith {} s w; showIter es e
+    | none => "bad-op"
   | ["iterx", r, k, d, h] => withHex h fun s =>
     let (es, e) := iterateWith { rejectOversizedMap := r = "1", xattrKeepOrder := k = "1", schilyKeyDecode := d = "1" } s; showIter es e
   | _ => "bad-op"
